@@ -88,6 +88,26 @@ Definition chk_seal (c : rcfg) (ws : list N) (tr : option sstate) (nsym : nat) :
 Definition window_ok (c : rcfg) (t : list N) (st : sstate) : bool :=
   (sL st <=? spec_window c t st)%N && (spec_window c t st <=? sL st + sR st)%N.
 
+(* op 26: decode_iid_symbols(k, model): exactly k items, errors leave the decoder unchanged *)
+Fixpoint dec_iid_items (c : rcfg) (md : emodel) (k : nat) (d : rdec) : option (list Z * rdec) :=
+  match k with
+  | O => Some ([], d)
+  | S k' =>
+      match rdec_decode c md d with
+      | ROk (s, d') =>
+          match dec_iid_items c md k' d' with
+          | Some (l, d'') => Some (0 :: s :: l, d'')
+          | None => None
+          end
+      | RErrInvalidData =>
+          match dec_iid_items c md k' d with
+          | Some (l, d'') => Some (ERR_INVALID :: 0 :: l, d'')
+          | None => None
+          end
+      | _ => None
+      end
+  end.
+
 (* ---- decoder phase ---- *)
 Fixpoint dec_loop (fuel : nat) (c : rcfg) (ms : list rmodel) (snaps : list snap) (l : list Z)
          (d : rdec) (tr : option sstate) (ok : bool) : option (list Z) :=
@@ -117,6 +137,11 @@ Fixpoint dec_loop (fuel : nat) (c : rcfg) (ms : list rmodel) (snaps : list snap)
                        end in
             opt_app (ERR_INVALID :: 0 :: dec_compact d) (dec_loop fuel' c ms snaps r d tr ok')
         | _ => None
+        end
+    | 26 :: m :: k :: r =>
+        match dec_iid_items c (get_model ms m) (Z.to_nat k) d with
+        | Some (l, d') => opt_app (k :: l ++ dec_compact d') (dec_loop fuel' c ms snaps r d' None ok)
+        | None => None
         end
     | 21 :: r =>
         opt_app [if rdec_maybe_exhausted c d then 1 else 0] (dec_loop fuel' c ms snaps r d tr ok)
